@@ -280,16 +280,21 @@ pub fn run_exhaustive(ctx: &mut Ctx) {
     for n in 1..=3 {
         exhaustive_n(ctx, n, false, &mut counter);
     }
-    // 4 points: the reduced alphabet in the quick tier (36^4 = 1.7 M
-    // contours x 3 tolerances), the full one (54^4 = 8.5 M x 3) in thorough.
-    let reduced = !ctx.tier.is_thorough();
-    exhaustive_n(ctx, 4, reduced, &mut counter);
+    // 4 points: full alphabet (54^4 = 8.5 M contours x 3 tolerances); the
+    // thorough tier adds 5 points over the reduced alphabet (36^5 = 60 M x 3).
+    exhaustive_n(ctx, 4, false, &mut counter);
+    let thorough = ctx.tier.is_thorough();
+    if thorough {
+        exhaustive_n(ctx, 5, true, &mut counter);
+    }
+    ctx.exhaustive = Some(true);
     ctx.extra.insert(
         "iup_exhaustive_space".into(),
-        json!({"points_per_contour": "1..=4", "tolerances": TOLS,
-               "alphabet_n1to3": "x,y in {0,10,20}; dx in {-1,0,2}; dy in {0,1}",
-               "alphabet_n4": if reduced {"x in {0,10,20}; y in {0,5}; dx in {-1,0,2}; dy in {0,1}"} else {"x,y in {0,10,20}; dx in {-1,0,2}; dy in {0,1}"},
-               "contours_enumerated_all_shards": counter}),
+        json!({"points_per_contour": if thorough {"1..=5"} else {"1..=4"}, "tolerances": TOLS,
+               "alphabet_n1to4": "x,y in {0,10,20}; dx in {-1,0,2}; dy in {0,1}",
+               "alphabet_n5": if thorough {"x in {0,10,20}; y in {0,5}; dx in {-1,0,2}; dy in {0,1}"} else {"(thorough tier only)"},
+               "contours_enumerated_all_shards": counter,
+               "note": "exhaustive applies to this enumerated optimiser sub-space only; all other workloads are sampled"}),
     );
 }
 
@@ -419,7 +424,7 @@ pub fn gen_deltas(rng: &mut Rng, coords: &[(i32, i32)], ends: &[usize], tol: f64
 }
 
 pub fn run_random(ctx: &mut Ctx) {
-    let n_cases = ctx.tier.pick(6_000usize, 60_000);
+    let n_cases = ctx.tier.pick(40_000usize, 400_000);
     for i in 0..n_cases {
         if !ctx.mine(i) {
             continue;
